@@ -65,8 +65,15 @@ func FDomain() []int64 {
 }
 
 // PatternIds and their sources.
-var PatternIds = []string{"a", "dot", "lower", "num"}
+//
+// "lit", "idn", "sfx" are UNANCHORED expressions that start with literal text (regexp.LiteralPrefix is
+// "abc", "id-", ".txt"): MatchString finds a match anywhere in the value, so the value tokens of group
+// "pattern" include strings whose match does not begin at position 0 ("xabc", "my id-7", "file.txt").
+var PatternIds = []string{"a", "dot", "lower", "num", "lit", "idn", "sfx"}
 var PatternSrc = map[string]string{
+	"lit":   `abc`,
+	"idn":   `id-[0-9]+`,
+	"sfx":   `\.txt$`,
 	"lower": `^[a-z]+$`,
 	"a":     `^a`,
 	"dot":   `.`,
@@ -281,6 +288,15 @@ func init() {
 	add("#eacute", "é", "mb")
 	add("", "a.b", "pattern")
 	add("#nl", "\n", "pattern")
+	// values for the unanchored patterns: the match at position 0, later, at the end, absent
+	for _, v := range []string{"xabc", "abcx", "xabcx", "ABC", "my id-7", "id-7", "id-", "xid-7x", "file.txt", ".txt", "file.txtx", "txt"} {
+		add("", v, "pattern")
+	}
+	// pairs of distinct strings that denote the same integer key ("1" / "01" / "+1", "7" / "+7" / "07"; with units
+	// "60s" / "1m", "1s" / "0m1s"): group "dup"
+	for _, v := range []string{"1", "01", "+1", "7", "+7", "07", "2", "60s", "1m", "1s", "0m1s"} {
+		add("", v, "dup")
+	}
 	// property / discriminator field names of the object universe (map keys are tokens)
 	for _, n := range []string{"e", "l", "ls", "m", "x", "s", "sp", "n", "u", "w", "r", "type", "B", "kind"} {
 		add("", n, "name")
